@@ -43,6 +43,7 @@ type actionJ struct {
 	MaxIndex    int       `json:"max_index"` // -1: rhs is not indexed
 	NonConst    []string  `json:"non_const_index"`
 	OtherAssert []string  `json:"other_asserts"`
+	OtherUses   []string  `json:"other_uses"` // uses of rhs / rhs[k] / rhs[k].Val that the analysis does not account for
 	Returns     []retJ    `json:"returns"`
 }
 
@@ -141,7 +142,7 @@ func transActions(args []string) any {
 	out := []actionJ{}
 	for _, st := range sw.Body.List {
 		cc := st.(*ast.CaseClause)
-		a := actionJ{MaxIndex: -1, Asserts: []assertJ{}, NonConst: []string{}, OtherAssert: []string{}, Returns: []retJ{}}
+		a := actionJ{MaxIndex: -1, Asserts: []assertJ{}, NonConst: []string{}, OtherAssert: []string{}, OtherUses: []string{}, Returns: []retJ{}}
 		for _, e := range cc.List {
 			if tv, ok := info.Types[e]; ok && tv.Value != nil {
 				v, _ := constant.Int64Val(tv.Value)
@@ -249,6 +250,64 @@ func transActions(args []string) any {
 					}
 					a.Returns = append(a.Returns, classifyReturn(fset, info, qual, x.Results[0], isRhsVal, assigned, 0))
 				}
+				return true
+			})
+		}
+		// every occurrence of rhs must be one of: rhs[k].Pos, rhs[k].Val under a type assertion, as a returned value,
+		// compared with nil, or as an argument of fmt.Sprintf (formatting cannot fail); anything else (rhs handed to a
+		// helper, len(rhs), a loop over rhs, rhs[k].Val stored in a variable) is outside the analysis
+		for _, s := range cc.Body {
+			var stack []ast.Node
+			ast.Inspect(s, func(n ast.Node) bool {
+				if n == nil {
+					stack = stack[:len(stack)-1]
+					return true
+				}
+				stack = append(stack, n)
+				id, ok := n.(*ast.Ident)
+				if !ok || id.Name != rhsName {
+					return true
+				}
+				up := func(k int) ast.Node {
+					if len(stack)-1-k >= 0 {
+						return stack[len(stack)-1-k]
+					}
+					return nil
+				}
+				ix, isIx := up(1).(*ast.IndexExpr)
+				if !isIx || ix.X != ast.Expr(id) {
+					a.OtherUses = append(a.OtherUses, nodeText(fset, up(1)))
+					return true
+				}
+				sel, isSel := up(2).(*ast.SelectorExpr)
+				if !isSel {
+					a.OtherUses = append(a.OtherUses, nodeText(fset, up(2)))
+					return true
+				}
+				if sel.Sel.Name == "Pos" {
+					return true
+				}
+				if sel.Sel.Name != "Val" {
+					a.OtherUses = append(a.OtherUses, nodeText(fset, sel))
+					return true
+				}
+				switch p := up(3).(type) {
+				case *ast.TypeAssertExpr:
+					if p.X == ast.Expr(sel) {
+						return true
+					}
+				case *ast.ReturnStmt:
+					return true
+				case *ast.BinaryExpr:
+					if other, ok := p.Y.(*ast.Ident); ok && other.Name == "nil" && (p.Op == token.NEQ || p.Op == token.EQL) {
+						return true
+					}
+				case *ast.CallExpr:
+					if nodeText(fset, p.Fun) == "fmt.Sprintf" {
+						return true
+					}
+				}
+				a.OtherUses = append(a.OtherUses, nodeText(fset, up(3)))
 				return true
 			})
 		}
